@@ -258,8 +258,8 @@ import paramiko.channel as _pchannel
 import paramiko.message as _pmessage
 
 TRACE = {_pchannel.__file__: None, _pmessage.__file__: {"get_int", "get_bytes", "get_adaptive_int", "get_int64"}}
-SEAMS = ["readers:recv+recv_stderr", "readers:recv+recv", "adjust+send", "adjust+send+send_stderr",
-         "feed+recv", "adjust+reader+send"]
+SEAMS = ["readers:recv+recv_stderr", "readers:recv+recv", "readers:recv+recv_small", "adjust+send",
+         "adjust+send+send_stderr", "feed+recv", "adjust+reader+send"]
 
 
 def make_seam_body(scn):
@@ -293,12 +293,13 @@ def make_seam_body(scn):
             # both streams hold a bit more than the acknowledgement threshold
             a.send(b"d" * (T + 2))
             a.send_stderr(b"e" * (T + 2))
-            if kind.endswith("recv+recv"):
+            if not kind.endswith("recv_stderr"):
                 a.send(b"d" * (T + 2))
             cp.deliver_all()
             fn2 = b.recv_stderr if kind.endswith("recv_stderr") else b.recv
+            # recv_small: the second reader stays below the acknowledgement threshold on its own
             ths = [vthreading.Thread(target=reader, args=(0, b.recv, T + 2)),
-                   vthreading.Thread(target=reader, args=(1, fn2, T + 2))]
+                   vthreading.Thread(target=reader, args=(1, fn2, 10 if kind.endswith("small") else T + 2))]
         elif kind.startswith("adjust"):
             # A has used most of its window; B's application has read enough for one WINDOW_ADJUST, which is in
             # flight while A's application sends again
@@ -338,7 +339,7 @@ def make_seam_body(scn):
         done, steps = st.fair_finish(200)
         v = st.ledger()
         shape = tuple((sd, m[0], len(m[2][1]) if isinstance(m[2][1], bytes) else m[2][1]) for sd, m in st.glog)
-        return v, shape, a.out_window_size, b.in_window_sofar
+        return v, shape, a.out_window_size, b.in_window_sofar, done
     return body
 
 
@@ -354,7 +355,7 @@ def seam_item(item, acc):
                           {"scn": scn, "err": repr(ex.error)[:300]},
                           {"part": "seam", "scn": scn, "choices": ex.choices})
             return
-        v, shape, ow, sofar = ex.value
+        v, shape, ow, sofar, done = ex.value
         if shape not in shapes:
             shapes.add(shape)
             acc.nt(("seam", scn, shape))
@@ -416,6 +417,8 @@ def main(tier):
         for (W, P) in ([(32768, 32768)] if tier == "quick" else [(32768, 32768), (40000, 4096)]):
             three = kind.count("+") >= 2
             b = pb - 1 if three else pb           # three threads: one preemption less
+            if tier == "quick" and kind not in ("readers:recv+recv_stderr", "adjust+send"):
+                b = 1                             # quick: full bound on one scenario per seam only
             if (W, P) != (32768, 32768):
                 b -= 1                            # second configuration: one preemption less
             nsh = 4 if b == 2 else (16 if b >= 3 else 1)
